@@ -222,6 +222,14 @@ class _Gen:
         if p.get('attr_pool', 0) and rng.chance(p['attr_pool']):
             an = rng.choice(self.ATTR_POOL)
             form = rng.weighted([('ivar', 2), ('cvar', 2), ('decl', 2)])
+            # prefer overriding an attribute an ancestor already has: chains of overrides are where the
+            # instance-variable / class-variable kind has to be propagated
+            inherited = sorted({n for a in self.ancestors(cid) for n in self.defs[a].get('members', {}) if n in self.ATTR_POOL})
+            if inherited and rng.chance(0.8):
+                an = rng.choice(inherited)
+                form = rng.weighted([('ivar', 1), ('cvar', 3), ('decl', 3)])
+            elif not inherited:
+                form = rng.weighted([('ivar', 4), ('cvar', 1), ('decl', 1)])
             vid = self.fid()
             if form == 'ivar':
                 fid_ = self.fid()
